@@ -19,6 +19,7 @@ From CB Require Import Trie.ArenaProofs.
 From CB Require Import Trie.ArenaCow.
 From CB Require Import Trie.ArenaTree.
 From CB Require Import Trie.ArenaView.
+From CB Require Import Trie.ArenaEnt.
 Import ListNotations.
 Local Open Scope N_scope.
 
@@ -395,8 +396,9 @@ Print Assumptions arena_rollback_nonvacuous.
 (** ** Towards [arena_refines_radix] (PARTIAL: abstraction function + lookup only).
     [abs_t d a idx] unfolds the arena below node [idx] into a radix tree of entry indices (to
     depth [d]); [vview] resolves the entries to their values.  [EInv]: the entries referenced
-    by nodes exist (assumed here: preserved by the lookup, not yet shown for every
-    operation).  Insert / delete / delete_prefix are NOT covered (see design notes). *)
+    by nodes exist (an assumption of the first two theorems; it holds in every reachable
+    state, [arena_reachable_entries_exist], so the third theorem has no assumption).
+    The commutation for insert / delete / delete_prefix is NOT covered (see design notes). *)
 
 (** [make_owned] - the copying of a shared children vector, which renumbers nodes and
     entries - changes neither the view of any existing node nor the value of any existing
@@ -421,6 +423,24 @@ Theorem arena_lookup_refines_radix_partial : forall a key r,
   /\ EInv (fst res).
 Proof. exact ArenaView.arena_lookup_refines_radix_partial. Qed.
 Print Assumptions arena_lookup_refines_radix_partial.
+
+(** Every reachable state satisfies the ownership invariant, the tree-shape invariant and
+    [EInv] (and so do the saved states of its older generations). *)
+Theorem arena_reachable_entries_exist : forall ops, ReachE (as_run ops as_init).
+Proof. exact (fun ops => ReachE_run ops as_init ReachE_init). Qed.
+Print Assumptions arena_reachable_entries_exist.
+
+(** Hence, in every state the arena machine can reach, its lookup is [Radix.lookup] on the
+    abstraction of the current root and changes no view and no entry value. *)
+Theorem arena_reachable_lookup_refines_radix_partial : forall ops key r,
+  let a := as_arena (as_run ops as_init) in
+  cur_root a = Some r ->
+  let res := a_lookup_key a key in
+  option_map (a_with_entry (fst res)) (snd res) = lookup (nib key) (vview (S (length (nib key))) a r)
+  /\ (forall d j, (j < length (a_nodes a))%nat -> vview d (fst res) j = vview d a j)
+  /\ (forall e, (e < length (a_entries a))%nat -> a_with_entry (fst res) e = a_with_entry a e).
+Proof. exact reachable_lookup_refines_radix_partial. Qed.
+Print Assumptions arena_reachable_lookup_refines_radix_partial.
 
 Example arena_view_nonvacuous :
   let s := as_run [OInsert [18] [1]; OInsert [19] [2]; ONewGen] as_init in
